@@ -83,6 +83,14 @@ SHORTHAND_SEEDS = [
 ]
 
 
+# malformed range expressions: the lexer reports these through raise_for_token()
+RANGE_ERROR_SEEDS = [
+    "{{ (1..3.5) }}", "abc\n{{ (1..3.5) }}", "{% if (1..2.5) %}{% endif %}", "{{ (1.5..3) }}", "{{ ('a'..3) }}",
+    "{% for i in (1..'b') %}{% endfor %}", "{{ (1...3) }}", "{{ (..3) }}", "{{ (1..) }}", "{{ (a b..3) }}",
+    "{{ (1..3 4) }}", "x{{ (1..true) }}", "{{ (nil..3) }}", "{% liquid\n echo (1..2.0)\n%}",
+]
+
+
 @st.composite
 def prog_source(draw: Any) -> dict[str, Any]:
     prog = draw(program_strategy(PROG_CFG))
@@ -135,6 +143,8 @@ class C17(Prop):
         for t in corpus():
             yield {"kind": "text", "src": t["template"], "data": {}, "templates": t.get("templates") or {},
                    "origin": "corpus"}
+        for src in RANGE_ERROR_SEEDS:
+            yield {"kind": "text", "src": src, "data": {}, "templates": {}, "origin": "range-error"}
         for src in SHORTHAND_SEEDS:
             yield {"kind": "text", "src": src, "data": {}, "templates": {}, "origin": "shorthand", "shorthand": True}
 
@@ -363,13 +373,23 @@ class C17(Prop):
         elif len(inner) == 1 and isinstance(inner[0], Token) and inner[0].type_ == TokenType.WORD:
             got = [inner[0].value]
         if got != want:
+            # inside a range expression the lexer reads keywords (nil, true, ...) as variable names
+            try:
+                toks = tokenize(env, "{{ (" + seg + "..1) }}")
+                inner = toks[0].expression if toks and isinstance(toks[0], OutputToken) else []
+                rs = getattr(inner[0], "range_start", None) if len(inner) == 1 else None
+                if isinstance(rs, PathToken):
+                    got = path_shape(rs)
+            except LiquidError:
+                pass
+        if got != want:
             res.fail("span", "expr-text:PathToken", f"path={want!r} but slice {seg!r} lexes to {got!r}; src={src!r}")
 
     def _check_error(self, err: LiquidError, src: str, res: Result) -> None:
         tok = err.token
         if tok is None or tok.source != src:
             return
-        if tok.start < 0:
+        if tok.start == -1:
             return
         kind = type(err).__name__
         if not (0 <= tok.start <= len(src)):
@@ -379,6 +399,12 @@ class C17(Prop):
         if isinstance(stop, int) and not (tok.start <= stop <= len(src)):
             res.fail("error-position", f"error-stop-oob:{type(tok).__name__}",
                      f"token span [{tok.start}:{stop}] does not lie inside the source (len={len(src)}); src={src!r}")
+            return
+        value = getattr(tok, "value", None)
+        if type(tok).__name__ == "ErrorToken" and isinstance(stop, int) and isinstance(value, str) and value \
+                and src[tok.start:stop] != value:
+            res.fail("error-position", "error-span-not-its-text",
+                     f"error token [{tok.start}:{stop}] covers {src[tok.start:stop]!r} but carries {value!r}; src={src!r}")
             return
         try:
             ctx = err.context()
